@@ -60,6 +60,18 @@ def o13_1(tier):
     for n, t0, t1 in [(2, 0, 1), (2, 1, 0), (4, 0, 3), (4, 3, 0), (4, 1, 2), (4, 2, 1), (3, 1, 1), (5, 4, 1)]:
         out.append((f"frames={n},{t0}->{t1}", mk(n, t0, t1)))
     out.append(("frames=4,0->3,lost-at-1", mk(4, 0, 3, missing_at=1)))
+
+    def mk_sym(n, t0, t1):
+        def h(ctx):
+            # arbitrary non-negative vertex numbers (0 included), different in every frame
+            ids = [ctx.int(f"id{k}") for k in range(n)]
+            for k in range(n):
+                ctx.assume(ctx.And(ids[k] >= 0, ids[k] < 1000), "pre")
+            ts, pos, times = mk_series(ctx, n, ids)
+            r = ctx.callm(ts, "get_point_id_by_map", ids[t0], t0, t1)
+            ctx.ensure(ctx.Not(ctx.none_is(r)) and ctx.eq(r, ids[t1]), "id of the same physical vertex at the target frame, whatever the numbering")
+        return h
+    out += [("frames=3,0->2,symbolic-ids", mk_sym(3, 0, 2)), ("frames=3,2->0,symbolic-ids", mk_sym(3, 2, 0))]
     return out
 
 
